@@ -97,3 +97,40 @@ Definition resolve_new (c : config) : option config :=
   let c' := update_defaults (update_from_default_flags c) in
   if validate c' then Some c' else None.
 End Config.
+
+(** * Finding out the style of a configuration file.  The tool decodes the file strictly as an old-style and as a
+      new-style configuration; one that decodes only one way is of that style, one that decodes neither way is refused,
+      one that decodes both ways is old style exactly when a legacy flag is present.  -old-config-style on the command line
+      settles it without probing; the file is then read strictly all the same. *)
+Inductive ckey :=
+| KCommon      (* package, output: both styles *)
+| KGenList     (* generate: [types, server] - the old style's list *)
+| KGenMap      (* generate: {models: true} - the new style's mapping *)
+| KOldOnly     (* top-level include-tags, import-mapping, ...: old style only *)
+| KNewOnly     (* output-options, compatibility, additional-imports: new style only *)
+| KUnknown.    (* a key neither style has (a misspelt one) *)
+Definition cfile := list ckey.
+Definition old_knows (k : ckey) : bool := match k with KCommon | KGenList | KOldOnly => true | _ => false end.
+Definition new_knows (k : ckey) : bool := match k with KCommon | KGenMap | KNewOnly => true | _ => false end.
+Definition strict_old (f : cfile) : bool := forallb old_knows f.
+Definition strict_new (f : cfile) : bool := forallb new_knows f.
+(** the non-strict decoder only fails on a shape it cannot store: a mapping where the old style has a list *)
+Definition lax_old (f : cfile) : bool := forallb (fun k => match k with KGenMap => false | _ => true end) f.
+
+Inductive cstyle := SOld | SNew.
+(** [None] = refused with a non-zero exit and no output *)
+Definition detect (old_probe : cfile -> bool) (explicit_old legacy_flag : bool) (f : cfile) : option cstyle :=
+  let chosen :=
+    if explicit_old then Some SOld
+    else match old_probe f, strict_new f with
+         | false, true => Some SNew
+         | true, false => Some SOld
+         | false, false => None
+         | true, true => Some (if legacy_flag then SOld else SNew)
+         end in
+  match chosen with
+  | Some SOld => if strict_old f then Some SOld else None          (* the file is read strictly as what it was taken for *)
+  | Some SNew => if strict_new f then Some SNew else None
+  | None => None
+  end.
+Definition cstyle_eqb (a b : cstyle) : bool := match a, b with SOld, SOld | SNew, SNew => true | _, _ => false end.
